@@ -899,11 +899,28 @@ where
         if self.state != CollectorState::InPixelData {
             // skip until we reach the pixel data
 
+            // pixel data nested in sequence items (e.g. icon images)
+            // is not the pixel data of this object
+            let mut depth = 0u32;
             self.skip_until(|token| {
                 match token {
+                    LazyDataToken::SequenceStart { .. } => {
+                        depth += 1;
+                        false
+                    }
+                    LazyDataToken::PixelSequenceStart if depth > 0 => {
+                        depth += 1;
+                        false
+                    }
+                    LazyDataToken::SequenceEnd => {
+                        depth = depth.saturating_sub(1);
+                        false
+                    }
                     // catch either native pixel data
                     LazyDataToken::ElementHeader(header)
-                        if header.tag == tags::PIXEL_DATA && header.length().is_defined() =>
+                        if depth == 0
+                            && header.tag == tags::PIXEL_DATA
+                            && header.length().is_defined() =>
                     {
                         true
                     }
@@ -1004,11 +1021,28 @@ where
         if self.state != CollectorState::InPixelData {
             // skip until we reach the pixel data
 
+            // pixel data nested in sequence items (e.g. icon images)
+            // is not the pixel data of this object
+            let mut depth = 0u32;
             self.skip_until(|token| {
                 match token {
+                    LazyDataToken::SequenceStart { .. } => {
+                        depth += 1;
+                        false
+                    }
+                    LazyDataToken::PixelSequenceStart if depth > 0 => {
+                        depth += 1;
+                        false
+                    }
+                    LazyDataToken::SequenceEnd => {
+                        depth = depth.saturating_sub(1);
+                        false
+                    }
                     // catch either native pixel data
                     LazyDataToken::ElementHeader(header)
-                        if header.tag == tags::PIXEL_DATA && header.length().is_defined() =>
+                        if depth == 0
+                            && header.tag == tags::PIXEL_DATA
+                            && header.length().is_defined() =>
                     {
                         true
                     }
